@@ -136,7 +136,11 @@ def part_R(run):
                             hv = [v >= -128, v <= 127]
                             vr = z3.ToReal(v)
                             goal = absr(val - y) <= absr(vr - y)
-                            run.add(f"C01/nearest-quotient[{tag}]/path{pi}", hy + hv, goal, "property", inst,
+                            # generalise the quotient x/scale to an arbitrary real (sound: proves more), which keeps the query linear
+                            Y = z3.Real("Yq")
+                            gsub = z3.substitute(goal, (y, Y))
+                            fsub = [z3.substitute(f, (y, Y)) for f in facts]
+                            run.add(f"C01/nearest-quotient[{tag}]/path{pi}", r.hyps + inb + [spos] + fsub + hv, gsub, "property", inst,
                                     replay=lambda m, sd, qn=qname, ax=axis, rk=rank: replay_nearest(m, sd, qn, ax, rk))
                             run.add(f"C01/code-in-grid[{tag}]/path{pi}", hy, z3.And(code >= -128, code <= 127), "property", inst)
                         else:
@@ -177,7 +181,7 @@ def finite(x):
 
 
 def part_F(run):
-    FT = 100 if run.tier == "quick" else 1200
+    FT = 240 if run.tier == "quick" else 1800
     dtypes = ["float16", "bfloat16"] + (["float32"] if run.tier == "thorough" else [])
     for qname in ("qint8", "qfloat8_e4m3fn", "qfloat8_e5m2"):
         for dtype in dtypes:
